@@ -239,8 +239,13 @@ class StrSym:
             return
         if isinstance(xs, dict) and xs.get("k") == "decl":
             for v in xs.get("vars", []):
-                env[v["name"]] = self.ev(v["init"], env) if v.get("init") is not None else None
-                self._effects(v.get("init"), env, out)
+                init = v.get("init")
+                iu = ir.unwrap(init) if init is not None else None
+                if isinstance(iu, dict) and iu.get("k") in ("paren_list", "init_list") and "regex_iterator" in (v.get("type") or ""):
+                    # direct-initialisation with a dependent type: T name(a, b, c) / T name{}
+                    init = {"k": "construct", "name": v.get("type"), "args": list(iu.get("elems", iu.get("kids", iu.get("args", []))))}
+                env[v["name"]] = self.ev(init, env) if init is not None else None
+                self._effects(init, env, out)
             return
         self._effects(x, env, out)
 
